@@ -119,6 +119,13 @@ def drive(cfg, state, ops, tgt, info, nw, ctx):
                     elif kind == "bounded":
                         lo, hi = S.gibbs_interval(cfg, i)
                         pos[i] = min(max(pos[i], lo), hi)
+                if cfg["target"]["kind"] == "cliff":
+                    # keep installed points off (and on the low side of) the discontinuities: from a point on top of a 100-nat cliff
+                    # whose coordinate cannot move down (non-negative parameter at an edge ~ 0) the retry loops of take_step never
+                    # accept - the redraw-on-rejection behaviour recorded under C01, not a read-out matter
+                    e = np.array(cfg["target"]["edges"])
+                    near = np.abs(pos - e) < 1e-6 * (1 + np.abs(e))
+                    pos = np.where(near, e + 1e-3, pos)
                 ch.replace_last(pos.copy())
                 ch.probs[-1] = tgt.logp(pos) * ch.inv_temp
                 model_s, model_p = model_s.copy(), model_p.copy()
